@@ -31,7 +31,8 @@ Inductive cact :=
 | CNotify (t : nat) | CCvBlock (t : nat) | CCvWake (t : nat) | CTimeout (t : nat)
 | CDisp (t : nat) (k : nat) (a : Z) | CTaken (t : nat) (k : nat) (a : Z) | CPeeked (t : nat) (k : nat) (a : Z)
 | CRes (t : nat) (b : bool) | CDone (t : nat)
-| CDeadlock.
+| CDeadlock (pending : nat) (nc : Z)   (* nobody can run: what the queue holds and whether notification is enabled *)
+| CDrained (k : nat) (a : Z).         (* after all threads have finished: what was still queued *)
 
 Record qshared := mkSh {
   ql : list cevt;               (* queueList (occupied slots, in order) *)
@@ -46,10 +47,12 @@ Record qshared := mkSh {
 
 Record qlocals := mkLo {
   ltemp : list cevt; lkept : list cevt; lidle : nat; lreg : Z;
-  lb : bool; lbe : bool; lres : bool; lslot : bool; ltimedout : bool; lev : option cevt
+  lb : bool; lbe : bool; lres : bool; lslot : bool; ltimedout : bool;
+  lev : option cevt;            (* the event being enqueued, not yet in queueList *)
+  lshow : option cevt           (* copy of the event handed to the caller by take/peek, for the log *)
 }.
 
-Definition lo0 : qlocals := mkLo [] [] 0 0 false false false false false None.
+Definition lo0 : qlocals := mkLo [] [] 0 0 false false false false false None None.
 
 Definition pverdict (p : nat) (e : cevt) : bool := Z.even (Z.of_nat p + cea e).
 
@@ -61,6 +64,7 @@ Inductive instr :=
 | ILocal (touches : list res) (f : nat -> qshared -> qlocals -> qshared * qlocals)
 | IIf (reads : list res) (c : qshared -> qlocals -> bool) (a b : list instr)
 | IWaitLoop (timed : bool)
+| IStart                         (* the thread has been created and waits to be scheduled for the first time *)
 | IRes                           (* log the call's boolean result *)
 | IDone.                         (* a call without result ends *)
 
@@ -74,19 +78,20 @@ Definition sh_ofm sh v := mkSh (ql sh) (fl sh) (cec sh) (cnc sh) (oqm sh) v (nex
 Definition sh_log sh e := mkSh (ql sh) (fl sh) (cec sh) (cnc sh) (oqm sh) (ofm sh) (nextid sh) (e :: clog sh) (g_enq sh) (g_disp sh) (g_taken sh) (g_cleared sh).
 Definition sh_enq sh e := mkSh (ql sh) (fl sh) (cec sh) (cnc sh) (oqm sh) (ofm sh) (S (nextid sh)) (clog sh) (e :: g_enq sh) (g_disp sh) (g_taken sh) (g_cleared sh).
 Definition sh_disp sh t e := mkSh (ql sh) (fl sh) (cec sh) (cnc sh) (oqm sh) (ofm sh) (nextid sh) (CDisp t (cek e) (cea e) :: clog sh) (g_enq sh) ((t, e) :: g_disp sh) (g_taken sh) (g_cleared sh).
-Definition sh_take sh t e := mkSh (ql sh) (fl sh) (cec sh) (cnc sh) (oqm sh) (ofm sh) (nextid sh) (CTaken t (cek e) (cea e) :: clog sh) (g_enq sh) (g_disp sh) ((t, e) :: g_taken sh) (g_cleared sh).
+Definition sh_take sh t e := mkSh (ql sh) (fl sh) (cec sh) (cnc sh) (oqm sh) (ofm sh) (nextid sh) (clog sh) (g_enq sh) (g_disp sh) ((t, e) :: g_taken sh) (g_cleared sh).
 Definition sh_clear sh es := mkSh (ql sh) (fl sh) (cec sh) (cnc sh) (oqm sh) (ofm sh) (nextid sh) (clog sh) (g_enq sh) (g_disp sh) (g_taken sh) (es ++ g_cleared sh).
 
-Definition lo_temp lo v := mkLo v (lkept lo) (lidle lo) (lreg lo) (lb lo) (lbe lo) (lres lo) (lslot lo) (ltimedout lo) (lev lo).
-Definition lo_kept lo v := mkLo (ltemp lo) v (lidle lo) (lreg lo) (lb lo) (lbe lo) (lres lo) (lslot lo) (ltimedout lo) (lev lo).
-Definition lo_idle lo v := mkLo (ltemp lo) (lkept lo) v (lreg lo) (lb lo) (lbe lo) (lres lo) (lslot lo) (ltimedout lo) (lev lo).
-Definition lo_reg lo v := mkLo (ltemp lo) (lkept lo) (lidle lo) v (lb lo) (lbe lo) (lres lo) (lslot lo) (ltimedout lo) (lev lo).
-Definition lo_b lo v := mkLo (ltemp lo) (lkept lo) (lidle lo) (lreg lo) v (lbe lo) (lres lo) (lslot lo) (ltimedout lo) (lev lo).
-Definition lo_be lo v := mkLo (ltemp lo) (lkept lo) (lidle lo) (lreg lo) (lb lo) v (lres lo) (lslot lo) (ltimedout lo) (lev lo).
-Definition lo_res lo v := mkLo (ltemp lo) (lkept lo) (lidle lo) (lreg lo) (lb lo) (lbe lo) v (lslot lo) (ltimedout lo) (lev lo).
-Definition lo_slot lo v := mkLo (ltemp lo) (lkept lo) (lidle lo) (lreg lo) (lb lo) (lbe lo) (lres lo) v (ltimedout lo) (lev lo).
-Definition lo_to lo v := mkLo (ltemp lo) (lkept lo) (lidle lo) (lreg lo) (lb lo) (lbe lo) (lres lo) (lslot lo) v (lev lo).
-Definition lo_ev lo v := mkLo (ltemp lo) (lkept lo) (lidle lo) (lreg lo) (lb lo) (lbe lo) (lres lo) (lslot lo) (ltimedout lo) v.
+Definition lo_temp lo v := mkLo v (lkept lo) (lidle lo) (lreg lo) (lb lo) (lbe lo) (lres lo) (lslot lo) (ltimedout lo) (lev lo) (lshow lo).
+Definition lo_kept lo v := mkLo (ltemp lo) v (lidle lo) (lreg lo) (lb lo) (lbe lo) (lres lo) (lslot lo) (ltimedout lo) (lev lo) (lshow lo).
+Definition lo_idle lo v := mkLo (ltemp lo) (lkept lo) v (lreg lo) (lb lo) (lbe lo) (lres lo) (lslot lo) (ltimedout lo) (lev lo) (lshow lo).
+Definition lo_reg lo v := mkLo (ltemp lo) (lkept lo) (lidle lo) v (lb lo) (lbe lo) (lres lo) (lslot lo) (ltimedout lo) (lev lo) (lshow lo).
+Definition lo_b lo v := mkLo (ltemp lo) (lkept lo) (lidle lo) (lreg lo) v (lbe lo) (lres lo) (lslot lo) (ltimedout lo) (lev lo) (lshow lo).
+Definition lo_be lo v := mkLo (ltemp lo) (lkept lo) (lidle lo) (lreg lo) (lb lo) v (lres lo) (lslot lo) (ltimedout lo) (lev lo) (lshow lo).
+Definition lo_res lo v := mkLo (ltemp lo) (lkept lo) (lidle lo) (lreg lo) (lb lo) (lbe lo) v (lslot lo) (ltimedout lo) (lev lo) (lshow lo).
+Definition lo_slot lo v := mkLo (ltemp lo) (lkept lo) (lidle lo) (lreg lo) (lb lo) (lbe lo) (lres lo) v (ltimedout lo) (lev lo) (lshow lo).
+Definition lo_to lo v := mkLo (ltemp lo) (lkept lo) (lidle lo) (lreg lo) (lb lo) (lbe lo) (lres lo) (lslot lo) v (lev lo) (lshow lo).
+Definition lo_ev lo v := mkLo (ltemp lo) (lkept lo) (lidle lo) (lreg lo) (lb lo) (lbe lo) (lres lo) (lslot lo) (ltimedout lo) v (lshow lo).
+Definition lo_show lo v := mkLo (ltemp lo) (lkept lo) (lidle lo) (lreg lo) (lb lo) (lbe lo) (lres lo) (lslot lo) (ltimedout lo) (lev lo) v.
 
 Definition nonempty {A} (l : list A) : bool := match l with [] => false | _ => true end.
 
@@ -209,21 +214,24 @@ Definition code_of (c : qapi) : list instr :=
             ILocal [RQ] (fun _ sh lo => match ql sh with e :: r => (sh_ql sh r, lo_temp lo [e]) | [] => (sh, lo_temp lo []) end);
             IUnlock QM;
             IIf [] (fun _ lo => nonempty (ltemp lo))
-                [ILocal [] (fun t sh lo => (fold_left (fun s e => sh_take s t e) (ltemp lo) sh, lo_temp lo []));
+                [ILocal [] (fun t sh lo => (fold_left (fun s e => sh_take s t e) (ltemp lo) sh, lo_show (lo_temp lo []) (hd_error (ltemp lo))));
                  ILock FM; ILocal [RF] (fun _ sh lo => (sh_fl sh (S (fl sh)), lo)); IUnlock FM;
                  ILocal [] (fun _ sh lo => (sh, lo_res lo true))]
                 [ILocal [] (fun _ sh lo => (sh, lo_res lo false))]]
            [ILocal [] (fun _ sh lo => (sh, lo_res lo false))];
+       (* the caller looks at the event it was handed after the call returned *)
+       ILocal [] (fun t sh lo => match lshow lo with Some e => (sh_log sh (CTaken t (cek e) (cea e)), lo) | None => (sh, lo) end);
        IRes]
   | APeek =>
       [IIf [RQ] (fun sh _ => nonempty (ql sh))
            [ILock QM;
             ILocal [RQ] (fun t sh lo => match ql sh with
-                                        | e :: _ => (sh_log sh (CPeeked t (cek e) (cea e)), lo_res lo true)
+                                        | e :: _ => (sh, lo_show (lo_res lo true) (Some e))
                                         | [] => (sh, lo_res lo false)
                                         end);
             IUnlock QM]
            [ILocal [] (fun _ sh lo => (sh, lo_res lo false))];
+       ILocal [] (fun t sh lo => match lshow lo with Some e => (sh_log sh (CPeeked t (cek e) (cea e)), lo) | None => (sh, lo) end);
        IRes]
   | AClear =>
       [IIf [RQ] (fun sh _ => nonempty (ql sh))
@@ -266,7 +274,7 @@ Record thread := mkTh { code : list instr; calls : list qapi; lo : qlocals; stat
 Record config := mkCfg { shs : qshared; ths : list thread; sched : list nat; dead : bool }.
 
 Definition is_sync (i : instr) : bool :=
-  match i with ILock _ | IUnlock _ | IAInc _ | IADec _ | IALoad _ | INotify => true | _ => false end.
+  match i with ILock _ | IUnlock _ | IAInc _ | IADec _ | IALoad _ | INotify | IStart | ICvWait _ => true | _ => false end.
 
 (* run local code up to the next visible action (or park, or finish) *)
 Fixpoint advance (fuel : nat) (t : nat) (sh : qshared) (th : thread) : qshared * thread :=
@@ -286,9 +294,6 @@ Fixpoint advance (fuel : nat) (t : nat) (sh : qshared) (th : thread) : qshared *
           | IWaitLoop timed => advance f t sh (mkTh (wait_loop timed ++ rest) (calls th) (lo th) TRun)
           | IRes => advance f t (sh_log sh (CRes t (lres (lo th)))) (mkTh rest (calls th) (lo th) TRun)
           | IDone => advance f t (sh_log sh (CDone t)) (mkTh rest (calls th) (lo th) TRun)
-          | ICvWait timed =>
-              (* atomically release queueListMutex and park *)
-              (sh_oqm (sh_log sh (CCvBlock t)) None, mkTh rest (calls th) (lo_to (lo th) false) (TParked timed))
           | _ => (sh, th)
           end
       end
@@ -362,9 +367,13 @@ Definition perform (t : nat) (cfg : config) : config :=
                       | None => ths cfg
                       end in
                     (sh_log sh (CNotify t), th1, others)
+                | IStart => (sh, th1, ths cfg)
+                | ICvWait timed =>
+                    (* atomically release queueListMutex and park; the thread is scheduled again only after a notify or a timeout *)
+                    (sh_oqm (sh_log sh (CCvBlock t)) None, mkTh rest (calls th) (lo_to (lo th) false) (TParked timed), ths cfg)
                 | _ => (sh, th, ths cfg)
                 end in
-              let '(sh2, th2) := advance ADV_FUEL t sh1 th1' in
+              let '(sh2, th2) := match status th1' with TParked _ => (sh1, th1') | _ => advance ADV_FUEL t sh1 th1' end in
               mkCfg sh2 (set_th others t th2) (sched cfg) (dead cfg)
           | [] => cfg
           end
@@ -408,7 +417,7 @@ Definition sched_step (cfg : config) : option config :=
           end
       | None =>
           if all_finished cfg1 then None
-          else Some (mkCfg (sh_log (shs cfg1) CDeadlock) (ths cfg1) rest true)
+          else Some (mkCfg (sh_log (shs cfg1) (CDeadlock (length (ql (shs cfg1))) (cnc (shs cfg1)))) (ths cfg1) rest true)
       end
   end.
 
@@ -420,16 +429,10 @@ Fixpoint run_sched (fuel : nat) (cfg : config) : config :=
 
 Definition sh0 : qshared := mkSh [] 0 0 0 None None 0 [] [] [] [] [].
 
-(* every thread first runs up to its first visible action, in thread order (harness: Start) *)
-Fixpoint start_threads (progs : list (list qapi)) (t : nat) (sh : qshared) : qshared * list thread :=
-  match progs with
-  | [] => (sh, [])
-  | p :: r =>
-      let '(sh1, th1) := advance ADV_FUEL t sh (mkTh [] p lo0 TRun) in
-      let '(sh2, ths2) := start_threads r (S t) sh1 in
-      (sh2, th1 :: ths2)
-  end.
+(* every thread starts parked at its creation point and runs when first scheduled (harness: Start) *)
+Definition start_threads (progs : list (list qapi)) : list thread :=
+  map (fun p => mkTh [IStart] p lo0 TRun) progs.
 
 Definition qc_run_case (fuel : nat) (progs : list (list qapi)) (schedule : list nat) : list cact :=
-  let '(sh1, ths1) := start_threads progs 0 sh0 in
-  rev (clog (shs (run_sched fuel (mkCfg sh1 ths1 schedule false)))).
+  let cfg := run_sched fuel (mkCfg sh0 (start_threads progs) schedule false) in
+  rev (clog (shs cfg)) ++ (if dead cfg then [] else map (fun e => CDrained (cek e) (cea e)) (ql (shs cfg))).
